@@ -161,3 +161,13 @@ Proof.
   apply parse_ok_inv in H. destruct H as [_ [fs [Hfs [_ [Ho _]]]]]. rewrite Ho.
   apply (terminal_file_overrides_g _ _ _ _ c t fs key f Hfs); assumption.
 Qed.
+
+(* ---- the --clean branch uses a mode of Simulation.clean that discards every
+   result of the old model *)
+Lemma clean_mode_resets_results_b :
+  forallb (fun n => str_mem n (resets_of clean_resets clean_mode)) old_results = true.
+Proof. vm_compute. reflexivity. Qed.
+
+Lemma clean_leaves_no_old_result_P : forall st n,
+  In n old_results -> ~ In n (apply_clean clean_resets clean_mode st).
+Proof. exact (clean_removes _ _ _ clean_mode_resets_results_b). Qed.
